@@ -25,10 +25,11 @@ for c in "$@"; do
   else res="$res $c:MISSED"; fi
 done
 echo "[$P/$K] RESULT:$res"
-D=/verif/seeded/$P-$K
+S=$((K + ${SEED_OFFSET:-0}))
+D=/verif/seeded/$P-$S
 mkdir -p $D
 cp $O/patch$K.diff $D/patch.diff; cp $O/demo$K.rs $D/demo.rs; cp $O/notes$K.md $D/notes.md
-python3 - "$P" "$K" "$clean_demo" "$suite" "$mut_demo" "$res" <<'PY'
+python3 - "$P" "$S" "$clean_demo" "$suite" "$mut_demo" "$res" <<'PY'
 import json,sys
 P,K,cd,su,md,res=sys.argv[1:7]
 d="/verif/seeded/%s-%s"%(P,K)
